@@ -1,5 +1,6 @@
 //! E1 `sysmc`: the real crate + dependency shims under `detsched` (see /verif/DESIGN.md §2.1).
 mod c01;
+mod futexhook;
 mod c02s;
 mod c05;
 mod c05fs;
